@@ -15,15 +15,61 @@ fn show<T: ToString + PartialEq>(
 
 pub fn run(line: &str) -> String {
     let w: Vec<&str> = line.split_whitespace().collect();
-    if w.len() != 4 {
+    if w.len() != 4 && w.len() != 5 {
         return "bad-case".to_string()
     }
     let buf = unhex(w[2]);
-    let pos: usize = w[3].parse().unwrap();
+    let pos: usize = match w[3].parse() {
+        Ok(p) => p,
+        Err(_) => return "bad-case".to_string(),
+    };
+    // Optional fifth word `@l1.t1/l2.t2/...` (outermost first): the parser runs on the innermost of a chain
+    // of nested RestrictViews whose window is exactly `buf`; view j cuts l_j bytes before and t_j bytes after
+    // its window out of view j-1 (view 0 = the whole allocation).
+    let mut chain: Vec<(usize, usize)> = Vec::new();
+    if w.len() == 5 {
+        let spec = match w[4].strip_prefix('@') {
+            Some(s) => s,
+            None => return "bad-case".to_string(),
+        };
+        for p in spec.split('/') {
+            let lt: Vec<&str> = p.split('.').collect();
+            if lt.len() != 2 {
+                return "bad-case".to_string()
+            }
+            match (lt[0].parse::<usize>(), lt[1].parse::<usize>()) {
+                (Ok(l), Ok(t)) if l < 4096 && t < 4096 => chain.push((l, t)),
+                _ => return "bad-case".to_string(),
+            }
+        }
+    }
     // A kind prefixed with 'v' runs the same parser on a RESTRICTED VIEW whose window is exactly
     // `buf` inside a larger allocation (3 bytes before, 2 after): by C17 a view behaves like a
     // copy of its window, so the expected output is the same as on the plain buffer.
-    let (kind, mut pb) = if w[0].starts_with('v') {
+    let (kind, mut pb) = if !chain.is_empty() {
+        let kind = if w[0].starts_with('v') { &w[0][1 ..] } else { w[0] };
+        let mut big: Vec<u8> = Vec::new();
+        for (j, (l, _)) in chain.iter().enumerate() {
+            big.extend((0 .. *l).map(|i| 0xE0u8 ^ (j as u8) ^ ((i as u8) << 1)));
+        }
+        big.extend_from_slice(&buf);
+        for (j, (_, t)) in chain.iter().enumerate().rev() {
+            big.extend((0 .. *t).map(|i| 0x70u8 ^ (j as u8) ^ ((i as u8) << 1)));
+        }
+        // window size of view j = everything inside it
+        let mut sizes = vec![buf.len(); chain.len()];
+        for j in (0 .. chain.len() - 1).rev() {
+            sizes[j] = chain[j + 1].0 + sizes[j + 1] + chain[j + 1].1;
+        }
+        let mut cur = ParseBuffer::new(big);
+        for (j, (l, _)) in chain.iter().enumerate() {
+            cur = match RestrictView::new(*l, sizes[j]).transform(&cur) {
+                Ok(v) => v,
+                Err(_) => return "bad-case".to_string(),
+            };
+        }
+        (kind, cur)
+    } else if w[0].starts_with('v') {
         let mut big = vec![0xEEu8, 0x11, 0xEE];
         let n = buf.len();
         big.extend_from_slice(&buf);
@@ -41,7 +87,10 @@ pub fn run(line: &str) -> String {
         return "bad-case".to_string()
     }
     if kind == "bv" {
-        let len: usize = w[1].parse().unwrap();
+        let len: usize = match w[1].parse() {
+            Ok(l) => l,
+            Err(_) => return "bad-case".to_string(),
+        };
         let r = ByteVecP::new(len).parse(&mut pb);
         return match r {
             Ok(v) => format!("ok {} {} {} {}", hex(v.val()), v.start(), v.end(), pb.get_cursor()),
